@@ -27,6 +27,16 @@ ungated run under -race over the three storage layers with two logs: failed Add 
 the implementation left it, bursts of overlapping submissions (chains of 0, 1 and 3 certificates), random writers and
 readers, restart and cold reads of every entry; plus the complete page matrix (one unfixable leaf first / middle /
 last x 7 classes x 4 completion orders).
+spec/ctfe/ChainStorePaging.tla: the PAGE dimension - a long tree (entry types x four chains x hash / legacy layout in
+a period of 9), get-entries responses of the length classes around the powers of two and multiples of four (+-1..3),
+round sizes, the configured limit and beyond, aligned / unaligned starts, ending at and running over the head of the
+tree, every cache configuration and state, lost / damaged rows, a storage fault, a garbled leaf at position classes of
+a long response.  The per-leaf work of a response may be split among any number of workers (stripes / round robin)
+finishing in any order: PartitionCovers, PageWhole (200 = as many entries as the default mode serves, none left in the
+stored form), UnfixableIsError, PlanIrrelevant, LegacyNeedsNoLookup, PageLeavesState; named clauses Clip / Align
+(number of entries) and Lookups (one storage lookup per leaf in hash form the cache does not hold).  Named defects
+(tailDropped, laterWorkerErrorLost) must be refuted.  Binding: simulated behaviours replayed on twin instances over
+the long tree (TestChainStorePaging): EVERY entry of every response byte for byte against the default mode.
 """
 import json
 from concurrent.futures import ThreadPoolExecutor
@@ -58,7 +68,12 @@ def run(ctx, replay=None):
     ]
     if replay:
         with open(replay) as f:
-            beh = json.load(f)["replay"]["behaviour"]
+            rp = json.load(f)["replay"]
+        if "paging" in rp:
+            path = ctx.write_ndjson("replay-paging.ndjson", [rp["paging"]])
+            ctx.go_test("cctfe", run="TestChainStorePaging$", env={"VERIF_BEHAVIOURS": path}, timeout=3000, name="paging")
+            return
+        beh = rp["behaviour"]
         path = ctx.write_ndjson("replay.ndjson", [beh])
         ctx.go_test("cctfe", run="TestChainStore$", env={"VERIF_BEHAVIOURS": path}, timeout=3000)
         return
@@ -73,11 +88,19 @@ def run(ctx, replay=None):
     # stored entry (retry after a failed Add whose cache write happened anyway; a second log answered from the first
     # log's cache) and the page served although a leaf cannot be fixed (the leaf that completes last decides)
     defects = ["ChainStoreDefectRetry.cfg", "ChainStoreDefectShared.cfg", "ChainStoreDefectPage.cfg"]
+    # the page dimension (ChainStorePaging.tla): one response of every length x start x plan x completion order of the
+    # workers x unfixable leaf from every resting state; every history of the resting state with a few lengths; the
+    # defects "the last n % W leaves are nobody's" and "only the first worker's error counts" must be refuted
+    paging = list(ctx.pick(("ChainStorePaging.cfg", "ChainStorePagingHist.cfg"),
+                           ("ChainStorePaging.cfg", "ChainStorePagingHist.cfg", "ChainStorePagingBig.cfg", "ChainStorePagingHistBig.cfg")))
+    exhaustive += paging
+    defects += ["ChainStorePagingDefectTail.cfg", "ChainStorePagingDefectError.cfg"]
 
     def one(cfg):
+        module = "MCChainStorePaging" if cfg.startswith("ChainStorePaging") else "MCChainStore"
         if cfg in defects:
-            return ctx.tlc("ctfe", "MCChainStore", cfg, workers=2, timeout=600, expect_violation=True, count=False)
-        return ctx.tlc("ctfe", "MCChainStore", cfg, workers=5, timeout=3000, count=False)
+            return ctx.tlc("ctfe", module, cfg, workers=2, timeout=600, expect_violation=True, count=False)
+        return ctx.tlc("ctfe", module, cfg, workers=5, timeout=3000, count=False)
 
     with ThreadPoolExecutor(max_workers=3) as pool:
         for cfg, r in zip(exhaustive + defects, list(pool.map(one, exhaustive + defects))):
@@ -89,7 +112,13 @@ def run(ctx, replay=None):
             ctx.transitions += r.generated
     sims = [(cap, d) for d in DIALECTS for cap in CAPS]
     with ThreadPoolExecutor(max_workers=4) as pool:
+        # (the page behaviours are drawn alongside: cache configuration and storage layer are chosen at Init)
+        pg = pool.submit(lambda: ctx.tlc("ctfe", "MCChainStorePaging", ctx.pick("ChainStorePagingSim.cfg", "ChainStorePagingSimBig.cfg"),
+                                         simulate=ctx.pick(48, 160), depth=600, count=False, timeout=3000))
         results = list(pool.map(lambda cd: ctx.tlc("ctfe", "MCChainStore", "ChainStoreSim%s%s.cfg" % cd, simulate=nsim[cd[1]], depth=40, count=False), sims))
+        pages = pg.result().records.get("BEH", [])
+    if not pages:
+        raise Infra("no page behaviours")
     behs = []
     for (cap, d), r in zip(sims, results):
         b = r.records.get("BEH", [])
@@ -99,5 +128,6 @@ def run(ctx, replay=None):
     path = ctx.write_ndjson("behaviours.ndjson", behs)
     ctx.go_test("cctfe", run="TestChainStore$", env={"VERIF_BEHAVIOURS": path}, timeout=3000)
     ctx.go_test("cctfe", run="TestChainStoreBackendFaults$", timeout=600, name="backendfaults")
+    ctx.go_test("cctfe", run="TestChainStorePaging$", env={"VERIF_BEHAVIOURS": ctx.write_ndjson("pages.ndjson", pages)}, timeout=3000, name="paging")
     ctx.go_test("cctfe", run="TestChainStoreConcurrent$", env={"VERIF_ROUNDS": ctx.pick(6, 42)}, race=True, timeout=3000,
                 name="concurrent")
